@@ -55,6 +55,6 @@ def _obligations(tier):
     for (kl, vl) in sizes:
         if True:
             obs.append(dict(name="lemma_field_k%dv%d" % (kl, vl), harness="C26_lemma.c", entry="harness_lemma",
-                        defines=["VP_LEM_FIELD", "VP_FIXED_LEN", "VP_K=%d" % kl, "VP_V=%d" % vl], unwind=kl + vl + 12, timeout=900, mem_gb=6,
+                        defines=["VP_LEM_FIELD", "VP_FIXED_LEN", "VP_K=%d" % kl, "VP_V=%d" % vl], unwind=kl + vl + 12, timeout=1500, mem_gb=8,
                         desc="format lemma: header section built from a safe field (name %d, value %d symbolic bytes) parses back to exactly that field (lenient and CRLF-only recipient)" % (kl, vl)))
     return obs
